@@ -1,7 +1,7 @@
 //! C10 - root finder: closed-form paths (degree 1..3); degree 0 rejected.
 use super::*;
 use crate::util::*;
-use ohsl_sym::{Cmplx, Polynomial};
+use ohsl_sym::{Cmplx, Polynomial, Vector};
 use symcore::*;
 
 pub fn instances(tier: &str) -> Vec<String> {
@@ -9,13 +9,19 @@ pub fn instances(tier: &str) -> Vec<String> {
     v.push("deg4_deflation".into()); // driver + deflation of the iterative path, Laguerre through its contract
     v.push("deg5_deflation".into());
     v.push("deg3_real".into()); // general Cardano branch, real coefficients (complex coefficients: path decisions do not finish)
+    v.push("deg3_cmplx_pure".into()); // a x^3 + d with complex a, d: the Cardano sign choice at d0 = 0, where base = d1 +- sqrt(d1^2) must not cancel
     if tier == "thorough" { v.push("deg2_real_refine".into()); }
+    // the real Laguerre iteration, ONE pass from an arbitrary iterate (inductive step of the loop; section 4 of DESIGN.md)
+    v.push("laguer_pass:m=2,co=cmplx".into());
+    if tier == "thorough" { v.push("laguer_pass:m=3,co=cmplx".into()); }
     v
 }
 
 pub fn configure(inst: &str, cfg: &mut Config) {
-    if inst.starts_with("deg2") || inst.starts_with("deg3") { cfg.stubs = vec!["csqrt".into(), "ccbrt".into()]; }
+    // the square-root stub leaves the sign open on the branch cut (f64: decided by the sign of a zero)
+    if inst.starts_with("deg2") || inst.starts_with("deg3") { cfg.stubs = vec!["csqrt".into(), "ccbrt".into(), "csqrt_signed_zero".into()]; }
     if inst.contains("deflation") { cfg.stubs = vec!["laguer".into()]; }
+    if inst.starts_with("laguer_pass") { cfg.stubs = vec!["csqrt".into()]; }
 }
 
 fn z() -> Sym { Sym::lit(0.0) }
@@ -102,13 +108,152 @@ fn is_root(tag: &str, coeffs: &[Cmplx], root: Cmplx) {
     prove(&format!("{}: imaginary part of p(root) is zero", tag), eq(acc.imag, z()));
 }
 
+/// One pass of the REAL `laguer` loop from an arbitrary iterate x0 on an arbitrary polynomial of degree m (the stub is off;
+/// only Complex::sqrt goes through its contract).  A fence cuts the call at the first decision of the second pass, so the
+/// harness sees exactly what one pass did.  Two outcomes:
+///  * the call returned during the first pass without moving x: then the test that let it return compared |p(x0)| (Horner value
+///    = sum a_k x0^k) with EPS times the running error bound - the accepted value is a zero to within that backward error;
+///  * the pass moved x to x1: then dx = x0 - x1 satisfies Laguerre's equation
+///        (m p - p' dx)^2 = dx^2 (m-1) (m (p'^2 - p p'') - p'^2)      (p, p', p'' at x0, from the coefficient formulas)
+///    with the root of larger modulus in the denominator,  |m p|^2 >= |2 p' dx - m p|^2,
+///    unless p' = 0 and the discriminant vanishes (the code then takes a unit-circle step, not examined).
+fn body_laguer(inst: &str) {
+    let (_, pm) = parse_inst(inst);
+    let m = geti(&pm, "m");
+    let real = pm.get("co").map(|s| s == "real").unwrap_or(false);
+    let cre = var_vec("c", m + 1);
+    let cim = var_vec("ci", m + 1);
+    let coeffs: Vec<Cmplx> = (0..=m).map(|k| Cmplx::new(cre[k], if real { z() } else { cim[k] })).collect();
+    if real { assume(ne(cre[m], z())); } else { assume(B::or(vec![ne(cre[m], z()), ne(cim[m], z())])); }
+    let x0 = Cmplx::new(Sym::var("x.re"), Sym::var("x.im"));
+    let mut a = Vector::<Cmplx>::create(coeffs.clone());
+    let mut x = x0;
+    let mut its_cell: usize = 0;
+    let its_ptr: *mut usize = &mut its_cell;
+    // the fence reads the iteration counter that the library writes at the top of every pass
+    set_fence(Some(Box::new(move || unsafe { std::ptr::read_volatile(its_ptr) } >= 2)));
+    let r = catch(|| Polynomial::<Cmplx>::laguer(&mut a, &mut x, unsafe { &mut *its_ptr }));
+    set_fence(None);
+    let its = unsafe { std::ptr::read_volatile(its_ptr) };
+    let tag = format!("laguer pass m={} {}", m, if real { "real coefficients" } else { "complex coefficients" });
+    // the polynomial and its derivatives at x0 from the coefficient formulas (no Horner)
+    let n = |k: usize| Sym::lit(k as f64);
+    let (mut p0, mut p1, mut p2) = (cz(), cz(), cz());
+    let mut pows = vec![Cmplx::new(Sym::lit(1.0), z())];
+    for _ in 0..m { let l = *pows.last().unwrap(); pows.push(l * x0); }
+    for k in 0..=m {
+        p0 = p0 + coeffs[k] * pows[k];
+        if k >= 1 { p1 = p1 + coeffs[k] * pows[k - 1] * n(k); }
+        if k >= 2 { p2 = p2 + coeffs[k] * pows[k - 2] * n(k * (k - 1)); }
+    }
+    // Horner value and running error bound, re-implemented here
+    let abx = x0.abs();
+    let mut hb = coeffs[m];
+    let mut herr = hb.abs();
+    for j in (0..m).rev() { hb = x0 * hb + coeffs[j]; herr = hb.abs() + abx * herr; }
+    let herr = herr * Sym::lit(f64::EPSILON);
+    let coeffs_intact = a.size() == m + 1 && (0..=m).all(|k| a[k].real.same(coeffs[k].real) && a[k].imag.same(coeffs[k].imag));
+    prove(&format!("{}: the coefficient vector is left as it was", tag), if coeffs_intact { B::True } else { B::False });
+    match r {
+        Ok(()) => {
+            count_case();
+            prove(&format!("{}: a return during the first pass reports iteration 1 (got {})", tag, its), if its == 1 { B::True } else { B::False });
+            let unmoved = x.real.same(x0.real) && x.imag.same(x0.imag);
+            prove(&format!("{}: a return during the first pass leaves x where it was", tag), if unmoved { B::True } else { B::False });
+            let group = format!("{}: accepted without a step only if |p(x)| <= EPS * running error bound", tag);
+            if is_concrete() {
+                prove(&format!("{} :: concrete", group), le(p0.abs(), herr));
+                return;
+            }
+            let shape = match last_decision() {
+                Some((B::Lt(e, b), false)) | Some((B::Le(b, e), true)) => Some((Sym::from_id(b), Sym::from_id(e))),
+                _ => None,
+            };
+            let arg = shape.and_then(|(babs, err)| match node_of(babs) { Node::Sqrt(t) => Some((Sym::from_id(t), err)), _ => None });
+            match arg {
+                Some((t, err)) => {
+                    prove_eq(&format!("{} :: the tested modulus^2 is |Horner value|^2", group), t, hb.real * hb.real + hb.imag * hb.imag);
+                    prove_eq(&format!("{} :: Horner value = sum a_k x^k (real part)", group), hb.real, p0.real);
+                    prove_eq(&format!("{} :: Horner value = sum a_k x^k (imaginary part)", group), hb.imag, p0.imag);
+                    prove_eq(&format!("{} :: the bound is EPS * (|b_0| + |x| (|b_1| + ...))", group), err, herr);
+                }
+                None => { prove(&format!("{} :: direct", group), le(p0.abs(), herr)); }
+            }
+        }
+        Err(Stop::Fence) => {
+            count_case();
+            prove(&format!("{}: the fence fired at the top of pass 2 (counter {})", tag, its), if its == 2 { B::True } else { B::False });
+            let group = format!("{}: the pass is a Laguerre step", tag);
+            let mm = Sym::lit(m as f64);
+            let m1 = Sym::lit((m - 1) as f64);
+            if is_concrete() {
+                // the statement itself on the actual numbers:  (m p - p' dx)^2 = dx^2 (m-1)(m(p'^2 - p p'') - p'^2),  larger denominator
+                let dx = x0 - x;
+                let lhs = { let t = p0 * mm - p1 * dx; t * t };
+                let disc = ((p1 * p1 - p0 * p2) * mm - p1 * p1) * m1;
+                let rhs = dx * dx * disc;
+                let degenerate = B::and(vec![eq(p1.real, z()), eq(p1.imag, z()), eq(disc.real, z()), eq(disc.imag, z())]);
+                let (big, small) = (p0 * mm, p1 * dx * Sym::lit(2.0) - p0 * mm);
+                prove(&format!("{} :: concrete", group), B::or(vec![degenerate, B::and(vec![eq(lhs.real, rhs.real), eq(lhs.imag, rhs.imag),
+                    le(small.real * small.real + small.imag * small.imag, big.real * big.real + big.imag * big.imag)])]));
+                return;
+            }
+            // the step as the algorithm prescribes it, rebuilt here from x0 and the coefficients (its decisions are already on the path)
+            let (mut b, mut d, mut f) = (coeffs[m], cz(), cz());
+            for j in (0..m).rev() { f = x0 * f + d; d = x0 * d + b; b = x0 * b + coeffs[j]; }
+            let g = d / b;
+            let fb = f / b;
+            let g2 = g * g;
+            let h = g2 - fb * Sym::lit(2.0);
+            let sq = ((h * mm - g2) * m1).sqrt();
+            let (gplus, gminus) = (g + sq, g - sq);
+            let (abp, abm) = (gplus.abs(), gminus.abs());
+            let (gp, other) = if abp < abm { (gminus, gplus) } else { (gplus, gminus) };
+            if !(Sym::max(abp, abm) > z()) { note(format!("{}: p' = 0 and zero discriminant: unit-circle step, not examined", tag)); check_that(true, || String::new()); return; }
+            let dx = Cmplx::new(mm, z()) / gp;
+            let x1 = x0 - dx;
+            prove_eq(&format!("{} :: the new iterate is x - m/(G +- sqrt((m-1)(m H - G^2))) (real part)", group), x.real, x1.real);
+            prove_eq(&format!("{} :: the new iterate is x - m/(G +- sqrt((m-1)(m H - G^2))) (imaginary part)", group), x.imag, x1.imag);
+            // Horner recurrences deliver p, p', p''/2
+            prove_eq(&format!("{} :: Horner b = p(x) (real part)", group), b.real, p0.real);
+            prove_eq(&format!("{} :: Horner b = p(x) (imaginary part)", group), b.imag, p0.imag);
+            prove_eq(&format!("{} :: Horner d = p'(x) (real part)", group), d.real, p1.real);
+            prove_eq(&format!("{} :: Horner d = p'(x) (imaginary part)", group), d.imag, p1.imag);
+            prove_eq(&format!("{} :: Horner 2f = p''(x) (real part)", group), f.real * Sym::lit(2.0), p2.real);
+            prove_eq(&format!("{} :: Horner 2f = p''(x) (imaginary part)", group), f.imag * Sym::lit(2.0), p2.imag);
+            // Laguerre's equation for dx, by certificate: with h1 = g b - d, h2 = fb b - f, h3 = sq^2 - (m-1)(m h - g^2), h4 = dx gp - m,
+            // A = b dx (gp - g), E = h1 dx - b h4:
+            //   (m b - d dx)^2 - dx^2 (m-1)(m(d^2 - 2 b f) - d^2)
+            //        = [dx^2 (m-1)^2 (2d + h1) + dx (2A + E)] h1 - 2 m (m-1) b dx^2 h2 + b^2 dx^2 h3 - b (2A + E) h4
+            let goal = { let t = b * mm - d * dx; t * t } - dx * dx * (((d * d - b * f * Sym::lit(2.0)) * mm - d * d) * m1);
+            let h1 = g * b - d;
+            let h2 = fb * b - f;
+            let h3 = sq * sq - (h * mm - g2) * m1;
+            let h4 = dx * gp - Cmplx::new(mm, z());
+            let aa = b * dx * (gp - g);
+            let ee = h1 * dx - b * h4;
+            let two_a_e = aa * Sym::lit(2.0) + ee;
+            let c1 = dx * dx * (m1 * m1) * (d * Sym::lit(2.0) + h1) + dx * two_a_e;
+            let c2 = -(b * dx * dx * (mm * m1 * Sym::lit(2.0)));
+            let c3 = b * b * dx * dx;
+            let c4 = -(b * two_a_e);
+            let good = certificate(&format!("{} :: Laguerre's equation (m p - p' dx)^2 = dx^2 (m-1)(m(p'^2 - p p'') - p'^2)", group), goal, Cmplx::new(Sym::lit(1.0), z()), &[(h1, c1), (h2, c2), (h3, c3), (h4, c4)]);
+            if !good { prove(&format!("{} :: Laguerre's equation, asked directly", group), B::and(vec![eq(goal.real, z()), eq(goal.imag, z())])); }
+            prove(&format!("{} :: the denominator of larger modulus is used", group), le(other.real * other.real + other.imag * other.imag, gp.real * gp.real + gp.imag * gp.imag));
+        }
+        Err(st) => must_not_stop(&format!("{}: one pass neither panics nor divides by zero", tag), &st),
+    }
+}
+
 pub fn body(inst: &str) {
+    if inst.starts_with("laguer_pass") { return body_laguer(inst); }
     let real = inst.contains("real");
     let refine = inst.ends_with("refine");
     let deg = match &inst[..4] { "deg0" => 0, "deg1" => 1, "deg2" => 2, "deg3" => 3, "deg4" => 4, _ => 5 };
     let cre = var_vec("c", deg + 1);
     let cim = var_vec("ci", deg + 1);
-    let coeffs: Vec<Cmplx> = (0..=deg).map(|k| Cmplx::new(cre[k], if real { z() } else { cim[k] })).collect();
+    let pure = inst.contains("pure");
+    let coeffs: Vec<Cmplx> = (0..=deg).map(|k| if pure && k != 0 && k != deg { cz() } else { Cmplx::new(cre[k], if real { z() } else { cim[k] }) }).collect();
     if deg >= 1 {
         // leading coefficient nonzero
         if real { assume(ne(cre[deg], z())); } else { assume(B::or(vec![ne(cre[deg], z()), ne(cim[deg], z())])); }
@@ -223,7 +368,7 @@ pub fn body(inst: &str) {
                         prove("quadratic: sum of the returned values = -b/a (imaginary part)", eq(lhs.imag, z()));
                     }
                 }
-                Err(st) => must_not_stop(&format!("degree {} with nonzero leading coefficient: finite roots must be returned", deg), &st),
+                Err(st) => if deg == 3 { must_not_stop(&"cubic: the three returned values are zeros of p :: finite values must come back", &st) } else { must_not_stop(&format!("degree {} with nonzero leading coefficient: finite roots must be returned", deg), &st) },
             }
         }
     }
@@ -238,8 +383,7 @@ fn cubic_paths(coeffs: &[Cmplx], roots: &[Cmplx; 3]) {
             let w = roots[k];
             let g = a * w * w * w + b * w * w + c * w + d;
             let res = B::and(vec![eq(g.real, z()), eq(g.imag, z())]);
-            prove(&format!("cubic (Cardano) root {} :: concrete residual", k), res.clone());
-            prove(&format!("cubic (triple-root branch) root {} :: concrete residual", k), res);
+            prove(&format!("cubic: the three returned values are zeros of p :: root {} concrete residual", k), res);
         }
         return;
     }
@@ -256,7 +400,7 @@ fn cubic_paths(coeffs: &[Cmplx], roots: &[Cmplx; 3]) {
                 let h = w * (a * n(3.0)) + b;
                 let g = a * w * w * w + b * w * w + c * w + d;
                 let one = Cmplx::new(n(1.0), z());
-                if !certificate(&format!("cubic (triple-root branch) root {}", k), g, a * a * n(27.0), &[(d1, one), (d0, h * n(-3.0)), (h, h * h)]) { is_root(&format!("cubic root {}", k), coeffs, w); }
+                if !certificate(&format!("cubic: the three returned values are zeros of p :: triple-root branch, root {}", k), g, a * a * n(27.0), &[(d1, one), (d0, h * n(-3.0)), (h, h * h)]) { is_root(&format!("cubic: the three returned values are zeros of p :: root {}", k), coeffs, w); }
             }
         }
         Some((_, bre, bim, kre, kim)) => {
@@ -280,8 +424,8 @@ fn cubic_paths(coeffs: &[Cmplx], roots: &[Cmplx; 3]) {
                 let cc = cs[k];
                 let l = d0 / cc;
                 let (_g, factors, hyps) = cardano(a, b, c, d, roots[k], cc, l, beta);
-                let good = ident && hypotheses_and_factors(&format!("cubic (Cardano) root {}", k), &hyps, &[factors[0], factors[1]]);
-                if good { check_that(true, || String::new()); } else { is_root(&format!("cubic root {}", k), coeffs, roots[k]); }
+                let good = ident && hypotheses_and_factors(&format!("cubic: the three returned values are zeros of p :: Cardano root {}", k), &hyps, &[factors[0], factors[1]]);
+                if good { check_that(true, || String::new()); } else { is_root(&format!("cubic: the three returned values are zeros of p :: root {}", k), coeffs, roots[k]); }
             }
         }
     }
